@@ -1,4 +1,4 @@
-import Logrange.Proofs.LqlLex
+import Logrange.Proofs.LqlInt
 /-!
 # C12 — LQL statements keep their meaning through print and re-parse
 
@@ -131,10 +131,25 @@ def txt (s : String) : Bytes := Go.ofAscii s
 /-- F12a: `SELECT FROM {a=b} WHERE msg CONTAINS "\x7d"` is accepted and prints `… CONTAINS "}"`, which the lexer
 rejects (the greedy Tags token runs to the last `}` of the line and leaves a lone `"`) -/
 theorem cex_brace_after_tags :
-    (parseLql dp0 (txt "SELECT FROM {a=b} WHERE msg CONTAINS \"\\x7d\"")).map (printLql rd0)
+    Logrange.Generated.C12.tagsQuoteAware = true ∨
+    ((parseLql dp0 (txt "SELECT FROM {a=b} WHERE msg CONTAINS \"\\x7d\"")).map (printLql rd0)
       = some (txt "SELECT FROM {a=b} WHERE msg CONTAINS \"}\"")
     ∧ lex (txt "SELECT FROM {a=b} WHERE msg CONTAINS \"}\"") = none
-    ∧ (parseLql dp0 (txt "SELECT FROM {a=b} WHERE msg CONTAINS \"\\x7d\"")).map (classBraceAfterTags rd0) = some true := by
+    ∧ (parseLql dp0 (txt "SELECT FROM {a=b} WHERE msg CONTAINS \"\\x7d\"")).map (classBraceAfterTags rd0) = some true) := by
+  decide +kernel
+
+/-- … and with the quote-aware Tags pattern of proposed-fixes/F12a.diff (regenerated fact `tagsQuoteAware`) the same
+statements — a `}` in a WHERE value, in a position, after nested braces — print as texts that parse back to the same AST
+(kernel evaluation of lexer + engine + printers on the witnesses of the class; not a ∀-theorem about the pattern) -/
+theorem brace_after_tags_roundtrips :
+    Logrange.Generated.C12.tagsQuoteAware = false ∨
+    (((parseLql dp0 (txt "SELECT FROM {a=b} WHERE msg CONTAINS \"\\x7d\"")).bind (fun l => parseLql dp0 (printLql rd0 l))).map canonLql
+        = (parseLql dp0 (txt "SELECT FROM {a=b} WHERE msg CONTAINS \"\\x7d\"")).map canonLql
+    ∧ (parseLql dp0 (txt "SELECT FROM {a=b} WHERE msg CONTAINS \"\\x7d\"")).isSome = true
+    ∧ ((parseLql dp0 (txt "select from {{a=\"x}y\",b=c}} position \"\\x7d\" limit 5")).bind (fun l => parseLql dp0 (printLql rd0 l))).map canonLql
+        = (parseLql dp0 (txt "select from {{a=\"x}y\",b=c}} position \"\\x7d\" limit 5")).map canonLql
+    ∧ (parseLql dp0 (txt "select from {{a=\"x}y\",b=c}} position \"\\x7d\" limit 5")).isSome = true
+    ∧ lex (txt "{a=b} WHERE msg CONTAINS \"}\"") = some [⟨.tags, txt "{a=b}"⟩, ⟨.keyword, txt "WHERE"⟩, ⟨.ident, txt "msg"⟩, ⟨.keyword, txt "CONTAINS"⟩, ⟨.string, txt "}"⟩]) := by
   decide +kernel
 
 /-- F12b: `select from {a="}"}` prints `SELECT FROM {a=}}`, which `tag.Parse` rejects -/
@@ -383,5 +398,15 @@ theorem create_pipe_equiv (name : Bytes) (S F : Expr) (hS : wfExpr S = true) (hF
 
 example : laExpr exE = true := by decide +kernel
 example : parseExprText (szExpr exE) (printExpr exE) = some exE := print_parse_expr exE (by decide +kernel) (by decide +kernel)
+
+/-! ## integers: the `intOK` hypothesis of `wfLql` holds for every int64 -/
+
+/-- **`strconv.ParseInt(fmt.Sprintf("%d", i), 0, 64) = i` for every int64** (models `decInt`, `parseInt0`: decimal digits
+without a leading zero are never read as octal), and the text is never mistaken for an operator or a parenthesis: OFFSET /
+LIMIT values need no per-value hypothesis in `C12_wf` -/
+theorem intOK_every_int64 (i : Int) (h1 : -(2 ^ 63) ≤ i) (h2 : i < 2 ^ 63) : intOK i = true := intOK_all i h1 h2
+
+theorem offset_limit_text_roundtrip (i : Int) (h1 : -(2 ^ 63) ≤ i) (h2 : i < 2 ^ 63) : parseInt0 (decInt i) = some i :=
+  parseInt0_decInt i h1 h2
 
 end Logrange.Props.C12
